@@ -122,11 +122,15 @@ PROPS['C03'] = {
     'trusted': _EVAL_TRUSTED, 'assumptions': _EVAL_ASSUME,
 }
 PROPS['C12'] = {
-    'units': ['ops', 'eval', 'canon'],
-    'functions': {'canon': [], 'ops': [], 'eval': ['eval_node', 'is_attractor_pattern', 'is_fixed_point_pattern', 'compute_steady_states']},
+    # the entry points are part of the cone (seeded change C12m): the shortcut returns the set the ENTRY POINT hands to eval_node as `steady_states`, so
+    # "alone, under other operators and in batches" depends on every entry point computing it for the whole batch
+    'units': ['ops', 'eval', 'api', 'front', 'lex', 'tree', 'mark', 'canon'],
+    'functions': {'canon': [], 'mark': [], 'front': [], 'lex': [], 'tree': [], 'ops': [], 'api': None,
+                  'eval': ['eval_node', 'is_attractor_pattern', 'is_fixed_point_pattern', 'compute_steady_states']},
     'level_text': ('Proof that the two recognisers accept exactly the patterns (!{x}: AG EF {x}) and (!{x}: AX {x}) (an iff, so near misses are rejected), '
                    'that the steady-state shortcut equals the semantics of !{x}: AX {x} inside every (restricted) unit set and for every variable name, '
-                   'and that both early returns of eval_node satisfy its general postcondition. The attractor half relies on the ASSUMED contract of the foreign attractor algorithm.'),
+                   'and that both early returns of eval_node satisfy its general postcondition; every entry point (single / batch, plain / extended) is proved to hand eval_node the '
+                   'steady-state set of the graph (loop invariant gv(&self_loop_states) == steady_set()). The attractor half relies on the ASSUMED contract of the foreign attractor algorithm.'),
     'level_note': 'Same trusted base as C01; attractor algorithm assumed. Stage 1 (sharing off).',
     'explanation': 'is_attractor_pattern / is_fixed_point_pattern: r <==> view == pattern; arm_fixed_point: steady_set agrees with bind(AX(var)) ; compute_steady_states: FixedPoints::symbolic(graph, unit) == steady_set.',
     'trusted': _EVAL_TRUSTED, 'assumptions': _EVAL_ASSUME,
